@@ -333,6 +333,27 @@ Definition translate_fn (st : strategy) (sf cf : pixfmt) (cm : cmap)
 Definition recolour (sf : pixfmt) (ready : bool) (table_cm screen_cm : cmap) : cmap :=
   if tc sf || negb ready then table_cm else screen_cm.
 
+(* rfbInitServerFormat (main.c) on a little-endian host, as called by rfbNewFramebuffer(screen, fb, w, h,
+   bitsPerSample, samplesPerPixel, bytesPerPixel): always true colour, host byte order *)
+Definition init_server_format (bytespp bps : Z) : pixfmt :=
+  let b := 8 * bytespp in
+  if b =? 8 then mkfmt 8 8 false true 7 7 3 0 3 6
+  else let m := u_of 16 (2 ^ bps - 1) in
+       mkfmt b b false true m m m 0 (u_of 8 bps) (u_of 8 (bps * 2)).
+
+(* memcmp(&screen->serverFormat, &old_format, sizeof(rfbPixelFormat)) == 0 *)
+Definition fmt_eqb (x y : pixfmt) : bool :=
+  (bpp x =? bpp y) && (depth x =? depth y) && Bool.eqb (be x) (be y) && Bool.eqb (tc x) (tc y) &&
+  (rmax x =? rmax y) && (gmax x =? gmax y) && (bmax x =? bmax y) &&
+  (rs x =? rs y) && (gs x =? gs y) && (bs x =? bs y).
+
+(* rfbNewFramebuffer for one connected client whose effective format is [cfe]: the new server format and,
+   when it differs from the old one, the result of re-running rfbSetTranslateFunction for the client
+   ([None] = format unchanged, the client keeps its function and table) *)
+Definition new_framebuffer (econ : bool) (sf : pixfmt) (bytespp bps : Z) (cfe : pixfmt) : pixfmt * option setup_res :=
+  let sf' := init_server_format bytespp bps in
+  (sf', if fmt_eqb sf' sf then None else Some (set_translate econ sf' cfe)).
+
 (* the byte ranges (offset, length) loaded, in order; independent of the data *)
 Definition reads_fn (st : strategy) (sf cf : pixfmt) (stride w h : Z) : list (Z * Z) :=
   match st with
